@@ -6,6 +6,8 @@
 //                     how long their header is and where they end, for one of the framings FR_* below.  Optional absolute
 //                     readLimit / writeLimit offsets implement "one segment boundary exactly at offset X" (exhaustive sweeps).
 //                     A foreign sender (raw text, hand-made WebSocket frames, hostile bytes for C02) writes with Pipe::Append().
+//                     Pipe::closed = true makes Read() return B_IO_ERROR once everything was read (EOF); Pipe::Restart() begins a
+//                     fresh stream after both gateways were Reset() (unread bytes discarded, scanner back at a frame boundary).
 //   chopio::Chopper   the transfer-size policy f(prng) shared by the DataIO objects of one case, plus the LOG of every
 //                     Read/Write (pipe, direction, bytes asked, bytes transferred).  Modes: CM_RANDOM (each call transfers
 //                     0 = would-block, 1, a few, a boundary-seeking amount, a uniform amount or everything, with weights drawn
@@ -127,8 +129,10 @@ public:
    size_t readLimit, writeLimit;    // absolute offsets no Read / Write crosses while set
    ScanState scan; std::vector<FrameMark> frames;
    std::string name;
+   bool closed;                     // the writer has closed the stream: once everything is read, Read() reports an error (as a TCP stream does at EOF)
+   long restarts;
 
-   explicit Pipe(int framing = FR_NONE, uint32_t fixedLen = 0, bool httpFirst = false) : rpos(0), readLimit(NO_OFFSET_LIMIT), writeLimit(NO_OFFSET_LIMIT) { scan.framing = framing; scan.fixedLen = fixedLen; scan.httpFirst = httpFirst; }
+   explicit Pipe(int framing = FR_NONE, uint32_t fixedLen = 0, bool httpFirst = false) : rpos(0), readLimit(NO_OFFSET_LIMIT), writeLimit(NO_OFFSET_LIMIT), closed(false), restarts(0) { scan.framing = framing; scan.fixedLen = fixedLen; scan.httpFirst = httpFirst; }
    size_t Written() const { return buf.size(); }
    size_t Unread() const { return buf.size() - rpos; }
    bool Empty() const { return rpos == buf.size(); }
@@ -136,6 +140,8 @@ public:
    size_t Writable() const { return writeLimit == NO_OFFSET_LIMIT ? (size_t)0x7fffffff : (writeLimit > buf.size() ? writeLimit - buf.size() : 0); }
    void Append(const void * p, size_t n) { const uint8_t * b = (const uint8_t *)p; buf.insert(buf.end(), b, b + n); for (size_t i = 0; i < n; i++) ScanFeed(scan, frames, b[i]); }
    void Append(const std::string & s) { Append(s.data(), s.size()); }
+   // a fresh data stream begins (both gateways were Reset()): unread bytes are discarded, the frame scanner starts at a frame boundary
+   void Restart() { rpos = buf.size(); if (!frames.empty() && !frames.back().closed) { frames.back().len = buf.size() - frames.back().start; frames.back().closed = true; } scan.pendingCR = false; scan.httpMatch = 0; closed = false; restarts++; }
    size_t Take(void * out, size_t n) { if (n) memcpy(out, &buf[rpos], n); rpos += n; return n; }
 
    // index of the frame that holds stream offset 'off' (the frame whose first byte it is when off is a frame start); -1 = beyond what is known
@@ -241,7 +247,9 @@ public:
          dribble[d] = (rng.R(8) == 0) ? (long)(200 + rng.R(6000)) : 0;
       }
    }
-   void SetScript(const std::vector<Xfer> & from) { script.clear(); for (size_t i = 0; i < from.size(); i++) script.push_back(from[i].got); scriptPos = 0; mode = CM_SCRIPT; }
+   void SetScript(const std::vector<Xfer> & from) { script.clear(); for (size_t i = 0; i < from.size(); i++) if (from[i].isRead != 2) script.push_back(from[i].got); scriptPos = 0; mode = CM_SCRIPT; }
+   // after Pipe::Restart(): a log entry (isRead == 2, asked = the stream offset where the fresh stream begins) so that offsets computed from the log stay right
+   void NoteRestart(uint8_t pipe, size_t offset) { sig = vh::mix64(sig ^ 0x5E5E7ULL ^ ((uint64_t)pipe << 40)); if (log.size() < maxLog) { Xfer t; t.pipe = pipe; t.isRead = 2; t.asked = (uint32_t)offset; t.got = 0; log.push_back(t); } else dropped++; }
 
    struct SeekSource { virtual ~SeekSource() {} virtual void Candidates(std::vector<uint32_t> & out, uint32_t maxN) = 0; };
 
@@ -285,6 +293,7 @@ public:
       std::vector<size_t> ro(pipes.size(), 0), wo(pipes.size(), 0); std::vector<std::string> cls;
       for (size_t i = 0; i < log.size(); i++) {
          const Xfer & t = log[i]; if (t.pipe >= pipes.size() || pipes[t.pipe] == NULL) continue;
+         if (t.isRead == 2) { ro[t.pipe] = wo[t.pipe] = t.asked; h["stream_restarts"]++; continue; }
          size_t & o = t.isRead ? ro[t.pipe] : wo[t.pipe];
          if (t.got == 0) { h[t.isRead ? "zero_byte_reads" : "zero_byte_writes"]++; continue; }
          o += t.got; cls.clear(); pipes[t.pipe]->Classify(o, cls);
@@ -296,7 +305,7 @@ public:
       std::string o; size_t i = 0;
       while (i < log.size() && o.size() < maxChars) {
          size_t j = i; while (j < log.size() && log[j].pipe == log[i].pipe && log[j].isRead == log[i].isRead && log[j].got == log[i].got) j++;
-         o += vh::fmt("%u%c%u", (unsigned)log[i].pipe, log[i].isRead ? 'r' : 'w', log[i].got); if (j - i > 1) o += vh::fmt("x%zu", j - i); o += ' ';
+         o += log[i].isRead == 2 ? vh::fmt("%u!RESET", (unsigned)log[i].pipe) : vh::fmt("%u%c%u", (unsigned)log[i].pipe, log[i].isRead ? 'r' : 'w', log[i].got); if (j - i > 1) o += vh::fmt("x%zu", j - i); o += ' ';
          i = j;
       }
       if (i < log.size()) o += vh::fmt("... (%zu more)", log.size() - i);
@@ -312,6 +321,7 @@ public:
    virtual io_status_t Read(void * b, uint32 size)
    {
       if (rd == NULL) return io_status_t((int32)0);
+      if (rd->closed && rd->Empty()) { (void)chop->Decide(true, 0, NULL); chop->Record(rdId, true, size, 0); return io_status_t(B_IO_ERROR); }   // end of stream
       size_t av = rd->Readable(); uint32_t maxN = (uint32_t)(av < size ? av : size);
       uint32_t n = chop->Decide(true, maxN, &_rs);
       rd->Take(b, n); chop->Record(rdId, true, size, n);
